@@ -495,3 +495,38 @@ pub fn value_arith<S: Src>(s: &mut S) {
         _ => { let v = l.clamped_sub(&r); for (k, (a, b)) in comps.iter().enumerate() { assert!(a.saturating_sub(*b) == component(&v, k), "clamped_sub: component {} is {} for {} - {}", k, component(&v, k), a, b); } }
     }
 }
+
+/// C11: a Byron address whose attribute map carries an explicit protocol magic (any u32) converts to bytes and back
+/// unchanged and reports that magic. Draw: the magic (u32). The address is assembled by hand (root hash 01.., type 0).
+pub fn c11_byron_attributes<S: Src>(s: &mut S) {
+    let magic = s.u32();
+    fn crc32(data: &[u8]) -> u32 {
+        let mut c: u32 = 0xffff_ffff;
+        for b in data { c ^= *b as u32; for _ in 0..8 { c = if c & 1 != 0 { (c >> 1) ^ 0xedb8_8320 } else { c >> 1 }; } }
+        !c
+    }
+    let mut r = crate::refcbor::Buf::new();
+    r.uint(magic as u64);
+    let inner: Vec<u8> = r.b[..r.n].to_vec();
+    for with_path in [false, true] {
+        let mut payload: Vec<u8> = vec![0x83, 0x58, 0x1c];
+        payload.extend([1u8; 28]);
+        payload.push(if with_path { 0xa2 } else { 0xa1 });
+        if with_path { payload.extend([0x01, 0x45, 0x44, 0x01, 0x02, 0x03, 0x04]); }
+        payload.push(0x02);
+        payload.push(0x40 + inner.len() as u8);
+        payload.extend(&inner);
+        payload.push(0x00);
+        let mut addr: Vec<u8> = vec![0x82, 0xd8, 0x18, 0x58, payload.len() as u8];
+        addr.extend(&payload);
+        addr.push(0x1a);
+        addr.extend(crc32(&payload).to_be_bytes());
+        let a = ByronAddress::from_bytes(addr.clone()).expect("a well-formed Byron address is refused");
+        assert!(a.to_bytes() == addr, "Byron address with explicit protocol magic {} does not convert to bytes and back unchanged", magic);
+        assert!(a.byron_protocol_magic() == magic, "Byron address reports protocol magic {} instead of {}", a.byron_protocol_magic(), magic);
+        let b58 = a.to_base58();
+        assert!(ByronAddress::from_base58(&b58).unwrap().to_bytes() == addr, "Base58 round trip changes the address");
+        let generic = Address::from_bytes(addr.clone()).unwrap();
+        assert!(generic.to_bytes() == addr, "Address::from_bytes / to_bytes changes a Byron address with explicit magic {}", magic);
+    }
+}
